@@ -2,7 +2,7 @@
    Property theorems only; proofs live in proofs/FlushStd.v, proofs/FlushFast.v, proofs/FlushBuild.v.
    Any topology (recurrent links, self-loops, links into sensors): there is no hypothesis on the network.
    [std_trace] / [fast_trace] list, for every operation of a sequence, its result and ReadOutputs() after it. *)
-From NeatModel Require Import Res F64 Net Fast FlushStd FlushFast FlushBuild C12Cases.
+From NeatModel Require Import Res F64 Net Fast FlushStd FlushFast FlushBuild SolverFuel C12Cases.
 From Coq Require Import Floats.
 
 (* Network: whatever operations (Load | Forward k | Recursive | Relax | Flush) were performed since construction,
@@ -75,6 +75,29 @@ Theorem C13_fast_step_respects :
     snd (fast_step NF act fn s1 o) = snd (fast_step NF act fn s2 o).
 Proof. exact fast_step_respects. Qed.
 Print Assumptions C13_fast_step_respects.
+
+(* the traces compared above are genuine: no operation of the models ever exhausts its recursion / loop fuel
+   (the ActivateSteps loop, NNode.Depth on cyclic graphs, recursiveActivateNode on cyclic graphs) *)
+Theorem C13_std_trace_no_fuel :
+  forall (F : Type) (NF : num F) (act : Z -> F -> res F),
+    (forall c x, act c x <> OutOfFuel) ->
+    forall (n : net F) (ops : list (op F)), net_ok n = true ->
+    forall s : sstate F, Forall (fun ro => fst ro <> OutOfFuel) (std_trace NF act n s ops).
+Proof. exact std_trace_no_fuel. Qed.
+Print Assumptions C13_std_trace_no_fuel.
+
+Theorem C13_fast_trace_no_fuel :
+  forall (F : Type) (NF : num F) (act : Z -> F -> res F),
+    (forall c x, act c x <> OutOfFuel) ->
+    forall (n : net F) (fn : fnet F), fast_of_net NF n = Ok fn ->
+    forall h ops : list (op F),
+      Forall (fun ro => fst ro <> OutOfFuel) (fast_trace NF act fn (fast_run NF act fn (fast_init NF fn) h) ops).
+Proof. exact fast_built_trace_no_fuel. Qed.
+Print Assumptions C13_fast_trace_no_fuel.
+
+Theorem C13_float_activation_has_no_fuel : forall (t : table) (c : Z) (x : float), fact t c x <> OutOfFuel.
+Proof. exact fact_no_fuel. Qed.
+Print Assumptions C13_float_activation_has_no_fuel.
 
 (* non-vacuity: a recurrent network (self-loop on the hidden node 2, 2-cycle 2 <-> 3, bias node 1);
    without the Flush the later outputs differ from a fresh network's, with it they coincide *)
